@@ -2748,8 +2748,9 @@ func (te *TemplateEngine) renderImages(content string, images map[string]*Templa
 // processImagePlaceholders 处理文档中的图片占位符
 func (te *TemplateEngine) processImagePlaceholders(doc *Document, data *TemplateData) error {
 	// 遍历文档元素，查找并替换图片占位符
-	for i, element := range doc.Body.Elements {
-		switch elem := element.(type) {
+	// 替换会改变元素个数，因此按下标遍历当前的元素列表，并跳过刚插入的元素
+	for i := 0; i < len(doc.Body.Elements); i++ {
+		switch elem := doc.Body.Elements[i].(type) {
 		case *Paragraph:
 			// 检查段落是否包含图片占位符
 			newElements, err := te.processImagePlaceholdersInParagraph(elem, data, doc)
@@ -2760,7 +2761,9 @@ func (te *TemplateEngine) processImagePlaceholders(doc *Document, data *Template
 			// 如果有图片替换，更新文档元素
 			if len(newElements) > 1 || (len(newElements) == 1 && newElements[0] != elem) {
 				// 移除原段落，插入新元素（可能包含图片段落）
-				doc.Body.Elements = append(doc.Body.Elements[:i], append(newElements, doc.Body.Elements[i+1:]...)...)
+				rest := append([]interface{}{}, doc.Body.Elements[i+1:]...)
+				doc.Body.Elements = append(append(doc.Body.Elements[:i], newElements...), rest...)
+				i += len(newElements) - 1
 			}
 		case *Table:
 			// 处理表格中的图片占位符 (Fix for Issue #91)
